@@ -157,7 +157,11 @@ def gen_world(seed, tier):
         ops.append({"op": "optimize"})
         qkind = {}
         ops.append({"op": "get_values", "vars": rng.sample(allv, rng.randint(1, len(allv))), "binary": False})
-    return {"vars": vars_, "ops": ops, "relations": rel}
+    wopts = {}
+    if rng.random() < 0.3:
+        # a wrapper with a finite limit and the extra signal timeout: optimize() then takes the _run_with_timeout route
+        wopts = {"time_limit": rng.choice([100, 3600]), "use_also_custom_timeout": rng.random() < 0.7}
+    return {"vars": vars_, "ops": ops, "relations": rel, "wrapper_options": wopts}
 
 
 def plans(world, info, seed, tier):
@@ -237,7 +241,7 @@ def execute(spec):
     def V(clause, detail, i):
         vs.append(Violation(ID, "C12." + clause, world["ops"][i]["op"], dict(detail, at_op=i)))
     with W.active(sim):
-        wr = sw.SolverWrapper()
+        wr = sw.SolverWrapper(**(world.get("wrapper_options") or {}))
         hv = {}                     # user var -> highs var
         bounds = {v: [float(d["lb"]), float(d["ub"])] for v, d in enumerate(vars_)}   # reference bounds incl. pending
         lins = []
@@ -262,7 +266,7 @@ def execute(spec):
                     if op["style"] == "dict":
                         # dict bounds map index -> bound; their insertion order is unrelated to the index order
                         lb_arg = {kk: l for kk, l in reversed(list(zip(keys, lbs)))}
-                        ub_arg = {kk: u for kk, u in sorted(zip(keys, ubs), key=lambda t: (t[0] * 7) % 5)}
+                        ub_arg = {kk: u for kk, u in reversed(list(zip(keys, ubs)))}
                     elif op["style"] == "list":
                         lb_arg, ub_arg = list(lbs), list(ubs)
                     else:
